@@ -155,6 +155,21 @@ def impl(c):
     err, det = stage(lambda: build(c), "ctor")
     if err:
         return {"outcome": err}
+    if c.get("seed", 0) % 5 == 4 and c["det"] in ("cbs", "sbs") and c.get("m", 1) >= 2:
+        # the same kind of detector has just run in this process with SHORTER minimum segments on the same interval grid
+        try:
+            build(dict(c, m=max(1, c["m"] - 1), mx=max(c["mx"], 2 * c["m"]))).fit(X).predict(X)
+        except Exception:
+            pass
+    if c.get("seed", 0) % 5 == 3:
+        # the very same data object has just been accepted (or rejected) by ANOTHER detector with the weakest requirements:
+        # what this configuration demands of the data must be checked all the same
+        from skchange.change_detectors import PELT
+
+        try:
+            PELT(min_segment_length=1).fit(X).predict(X)
+        except Exception:
+            pass
     if c.get("seed", 0) % 3 == 2:
         # a re-configuration that is rejected (ValueError from the constructor checks) must leave an object that can be
         # re-configured validly afterwards and then behaves as usual
@@ -227,7 +242,10 @@ def documented_valid(c):
 def permitted_extra(c, out):
     """the only other permitted outcomes of a documented-valid configuration"""
     if ":ValueError:" in out and "min_size" in out:
-        return True  # the chosen cost cannot score segments as short as requested
+        # the chosen cost cannot score segments as short as requested — only when that is really so
+        need = {"default": 1, "l2": 1, "gauss": 2, "gcov": c.get("p", 1) + 1}.get(c.get("cost", "default"), 1)
+        asked = c.get("b", c.get("m", 1))
+        return bool(need > asked)
     if ":RuntimeError:" in out and "positive definite" in out:
         return True  # documented error for a non-positive-definite sample covariance
     if c["det"] == "mvcapa" and c["cost"] == "gcov":
